@@ -44,6 +44,12 @@ CLAIMS["C07"] = dict(
   technique="difference-constraint bounds prover on SSA + audited table, parse/compare agreement table, operand-mirror and mirrored-branch rules",
   ref="DESIGN.md §3 C07")
 
+CLAIMS["C02"] = dict(
+  text="Panic-freedom discipline over every first-party function reachable from the methods of the 57 registered offline filesystem extractors (three GOOS configurations in the thorough tier): index/slice expressions proved in bounds or audited with invariant and witnesses; JSON/YAML-decoded pointers (top-level, fields, slice/map elements, followed through first-party calls) nil-tested before dereference; no ok/err-discarded nil-on-failure results; single-value type assertions only on Package.Metadata or audited; no possibly-nil *Package appended to a result; plus failure confinement in the engine (errors of Open/Stat/Extract recorded per extractor, dispatch returns nothing). Level 'other': a necessary discipline for 'never panics'; termination, time/memory bounds, third-party parser internals and nil dereferences in general are not decided.",
+  note="Trusted: go/ssa, CHA reachability, the API contract table, 6 audited index/slice sites and 2 audited assertions (listed with reasons in evidence), encoding/xml and toml never leaving nil pointers.",
+  technique="difference-constraint bounds prover, decode-nil taint analysis, assertion/ok-discard lints over the reachable call graph",
+  ref="DESIGN.md §3 C02")
+
 NA = {}
 
 
